@@ -151,13 +151,10 @@ class Types:
         return set()
 
 
-_TYPES = {}
-
-
 def types(analysis):
-    if id(analysis) not in _TYPES:
-        _TYPES[id(analysis)] = Types(analysis)
-    return _TYPES[id(analysis)]
+    if "_types" not in analysis.__dict__:
+        analysis._types = Types(analysis)
+    return analysis._types
 
 
 def profiles(analysis):
